@@ -25,6 +25,7 @@ type Engine struct {
 	itabMu    sync.Mutex
 	pure      map[*ssa.Function]bool
 	rowTabs   map[*ssa.Global]*Lit
+	mapLits   map[*ssa.Global]*Lit
 	failExits map[*ssa.Function][]failExit
 	writes    map[*ssa.Function]bool
 	itables   map[string]*[256]int64
